@@ -54,6 +54,24 @@ theorem mem_fieldPairs (hw : WF cur) {f : FlatField → FlatField → List Ann} 
   apply mem_pairwise_pair_unique (fun x : FlatField => x.field.number) _ _ _ _ pf cf a _ hpf hcf hnum ha
   rw [msgFields_numbers]; exact hw.fields cm hcm
 
+/-- `cf` (current) and `pf` (previous) are paired by NewBreakingFieldPairRuleHandler: the fields with
+    the same number of two same-named messages, or two extensions (at any nesting, in any files) of
+    the same extendee with the same number -/
+def FieldPaired (cur prev : Schema) (cf pf : FlatField) : Prop :=
+  (∃ pm cm, pm ∈ allMsgs prev ∧ cm ∈ allMsgs cur ∧ cm.fullName = pm.fullName ∧
+      pf ∈ msgFields pm ∧ cf ∈ msgFields cm ∧ cf.field.number = pf.field.number) ∨
+  (pf ∈ extFields prev ∧ cf ∈ extFields cur ∧ cf.field.extendee = pf.field.extendee ∧
+      cf.field.number = pf.field.number)
+
+theorem mem_fieldPairs_paired (hw : WF cur) {f : FlatField → FlatField → List Ann} {pf cf : FlatField} {a : Ann}
+    (hp : FieldPaired cur prev cf pf) (ha : a ∈ f cf pf) : a ∈ fieldPairs cur prev f := by
+  rcases hp with ⟨pm, cm, hpm, hcm, hname, hpf, hcf, hnum⟩ | ⟨hpf, hcf, hx, hn⟩
+  · exact mem_fieldPairs hw hpm hcm hname hpf hcf hnum ha
+  · unfold fieldPairs
+    apply List.mem_append_right
+    exact mem_pairwise_pair_unique (fun x : FlatField => (x.field.extendee, x.field.number)) _ _ _ _ pf cf a
+      hw.exts hpf hcf (by rw [hx, hn]) ha
+
 theorem mem_methodPairs (hw : WF cur) {f : FlatMethod → FlatMethod → List Ann} {ps cs : FlatSvc}
     {pm cm : FlatMethod} {a : Ann}
     (hps : ps ∈ allSvcs prev) (hcs : cs ∈ allSvcs cur) (hname : cs.fullName = ps.fullName)
@@ -67,5 +85,154 @@ theorem mem_methodPairs (hw : WF cur) {f : FlatMethod → FlatMethod → List An
 theorem runRule_eq {id : String} {f : Schema → Schema → List Ann} (h : ruleTable.lookup id = some f)
     (cur prev : Schema) : runRule id cur prev = f cur prev := by
   unfold runRule; rw [h]
+
+/-! ### where each rule is active — the DOCUMENTED table (hand-written from the buf documentation
+    "Rules and categories" of the three configuration versions), checked by `decide` against the
+    REGENERATED `BufGen.BreakingTables` (`docTable_exact`; re-exported as `C03.rules_active`). -/
+
+/-- the four breaking categories -/
+def allCats : List String := ["FILE", "PACKAGE", "WIRE_JSON", "WIRE"]
+
+structure DocRow where
+  id : String
+  v1beta1 : List String
+  v1 : List String
+  v2 : List String
+
+def DocRow.cats (r : DocRow) : Ver → List String
+  | .v1beta1 => r.v1beta1 | .v1 => r.v1 | .v2 => r.v2
+
+def inF : List String := ["FILE"]
+def inFP : List String := ["FILE", "PACKAGE"]
+def inFPJ : List String := ["FILE", "PACKAGE", "WIRE_JSON"]
+def inAll : List String := ["FILE", "PACKAGE", "WIRE_JSON", "WIRE"]
+def inP : List String := ["PACKAGE"]
+def inJ : List String := ["WIRE_JSON"]
+def inJW : List String := ["WIRE_JSON", "WIRE"]
+def inW : List String := ["WIRE"]
+
+def same (id : String) (c : List String) : DocRow := ⟨id, c, c, c⟩
+
+def docTable : List DocRow := [
+  same "ENUM_NO_DELETE" inF,
+  ⟨"EXTENSION_NO_DELETE", [], [], inF⟩,
+  same "FILE_NO_DELETE" inF,
+  same "MESSAGE_NO_DELETE" inF,
+  same "SERVICE_NO_DELETE" inF,
+  same "ENUM_SAME_TYPE" inFP,
+  same "ENUM_SAME_JSON_FORMAT" inFPJ,
+  same "ENUM_VALUE_NO_DELETE" inFP,
+  same "ENUM_VALUE_NO_DELETE_UNLESS_NAME_RESERVED" inJ,
+  same "ENUM_VALUE_NO_DELETE_UNLESS_NUMBER_RESERVED" inJW,
+  same "ENUM_VALUE_SAME_NAME" inFPJ,
+  same "RESERVED_ENUM_NO_DELETE" inAll,
+  same "EXTENSION_MESSAGE_NO_DELETE" inFP,
+  same "FIELD_NO_DELETE" inFP,
+  same "FIELD_NO_DELETE_UNLESS_NAME_RESERVED" inJ,
+  same "FIELD_NO_DELETE_UNLESS_NUMBER_RESERVED" inJW,
+  same "MESSAGE_NO_REMOVE_STANDARD_DESCRIPTOR_ACCESSOR" inFP,
+  same "ONEOF_NO_DELETE" inFP,
+  same "MESSAGE_SAME_JSON_FORMAT" inFPJ,
+  same "MESSAGE_SAME_REQUIRED_FIELDS" inAll,
+  same "RESERVED_MESSAGE_NO_DELETE" inAll,
+  ⟨"FIELD_SAME_CARDINALITY", inAll, inFP, inFP⟩,
+  same "FIELD_WIRE_COMPATIBLE_CARDINALITY" inW,
+  same "FIELD_WIRE_JSON_COMPATIBLE_CARDINALITY" inJ,
+  ⟨"FIELD_SAME_TYPE", inAll, inFP, inFP⟩,
+  ⟨"FIELD_WIRE_COMPATIBLE_TYPE", [], inW, inW⟩,
+  ⟨"FIELD_WIRE_JSON_COMPATIBLE_TYPE", [], inJ, inJ⟩,
+  same "FIELD_SAME_JSTYPE" inFP,
+  same "FIELD_SAME_UTF8_VALIDATION" inFP,
+  same "FIELD_SAME_JSON_NAME" inFPJ,
+  same "FIELD_SAME_NAME" inFPJ,
+  ⟨"FIELD_SAME_DEFAULT", [], [], inAll⟩,
+  same "FIELD_SAME_ONEOF" inAll,
+  same "RPC_NO_DELETE" inFP,
+  same "RPC_SAME_CLIENT_STREAMING" inAll,
+  same "RPC_SAME_SERVER_STREAMING" inAll,
+  same "RPC_SAME_IDEMPOTENCY_LEVEL" inAll,
+  same "RPC_SAME_REQUEST_TYPE" inAll,
+  same "RPC_SAME_RESPONSE_TYPE" inAll,
+  same "PACKAGE_ENUM_NO_DELETE" inP,
+  ⟨"PACKAGE_EXTENSION_NO_DELETE", [], [], inP⟩,
+  same "PACKAGE_MESSAGE_NO_DELETE" inP,
+  same "PACKAGE_SERVICE_NO_DELETE" inP,
+  same "PACKAGE_NO_DELETE" inP,
+  same "FILE_SAME_SYNTAX" inFP,
+  ⟨"FILE_SAME_PACKAGE", inF, inAll, inAll⟩,
+  same "FILE_SAME_CC_ENABLE_ARENAS" inFP, same "FILE_SAME_CC_GENERIC_SERVICES" inFP,
+  same "FILE_SAME_CSHARP_NAMESPACE" inFP, same "FILE_SAME_GO_PACKAGE" inFP,
+  same "FILE_SAME_JAVA_GENERIC_SERVICES" inFP, same "FILE_SAME_JAVA_MULTIPLE_FILES" inFP,
+  same "FILE_SAME_JAVA_OUTER_CLASSNAME" inFP, same "FILE_SAME_JAVA_PACKAGE" inFP,
+  same "FILE_SAME_OBJC_CLASS_PREFIX" inFP, same "FILE_SAME_OPTIMIZE_FOR" inFP,
+  same "FILE_SAME_PHP_CLASS_PREFIX" inFP, same "FILE_SAME_PHP_METADATA_NAMESPACE" inFP,
+  same "FILE_SAME_PHP_NAMESPACE" inFP, same "FILE_SAME_PY_GENERIC_SERVICES" inFP,
+  same "FILE_SAME_RUBY_PACKAGE" inFP, same "FILE_SAME_SWIFT_PREFIX" inFP]
+
+theorem docTable_ids : docTable.map (·.id) = ruleTable.map (·.1) ++ fileOptRules.map (·.1) := by decide
+
+theorem docTable_exact : ∀ v : Ver, ∀ r ∈ docTable, ∀ cat ∈ allCats,
+    (cat ∈ r.cats v ↔ r.id ∈ rulesOf v cat) := by
+  intro v; cases v <;> decide
+
+
+theorem docTable_cats : ∀ v : Ver, ∀ r ∈ docTable, ∀ c ∈ r.cats v, c ∈ allCats := by
+  intro v; cases v <;> decide
+
+/-- the regenerated tables know no category besides the four -/
+theorem table_cats : ∀ v : Ver, ∀ r ∈ v.table, ∀ c ∈ r.cats, c ∈ allCats := by
+  intro v; cases v <;> decide
+
+/-- every documented rule is active somewhere in the newest configuration version -/
+theorem docTable_v2_nonempty : ∀ r ∈ docTable, r.cats .v2 ≠ [] := by decide
+
+/-- the categories in which rule `id` is documented to be active under config version `v` -/
+def activeCats (id : String) (v : Ver) : List String :=
+  match docTable.find? (fun r => r.id == id) with
+  | some r => r.cats v
+  | none => []
+
+theorem active_sound {id : String} {v : Ver} {cat : String} (h : cat ∈ activeCats id v) :
+    id ∈ rulesOf v cat := by
+  unfold activeCats at h
+  split at h
+  · rename_i r hr
+    have hmem := List.mem_of_find?_eq_some hr
+    have hid : r.id = id := by simpa using List.find?_some hr
+    have hcat : cat ∈ allCats := docTable_cats v r hmem cat h
+    exact hid ▸ (docTable_exact v r hmem cat hcat).1 h
+  · cases h
+
+theorem cat_of_mem_rulesOf {id : String} {v : Ver} {cat : String} (h : id ∈ rulesOf v cat) : cat ∈ allCats := by
+  unfold rulesOf at h
+  obtain ⟨h1, _⟩ := List.mem_filter.1 h
+  obtain ⟨r, hr, _⟩ := List.mem_map.1 h1
+  obtain ⟨hr1, hr2⟩ := List.mem_filter.1 hr
+  exact table_cats v r hr1 cat (by simpa using hr2)
+
+theorem active_complete {id : String} (hid : id ∈ docTable.map (·.id)) {v : Ver} {cat : String}
+    (h : id ∈ rulesOf v cat) : cat ∈ activeCats id v := by
+  obtain ⟨r0, hr0, hid0⟩ := List.mem_map.1 hid
+  unfold activeCats
+  cases hf : docTable.find? (fun r => r.id == id) with
+  | none =>
+    have := List.find?_eq_none.1 hf r0 hr0
+    simp [hid0] at this
+  | some r =>
+    have hmem := List.mem_of_find?_eq_some hf
+    have hrid : r.id = id := by simpa using List.find?_some hf
+    exact (docTable_exact v r hmem cat (cat_of_mem_rulesOf h)).2 (hrid ▸ h)
+
+/-- `Reports id a cur prev`: the annotation `a` is reported in EVERY configuration (config version ×
+    category) in which rule `id` is documented to be active -/
+def Reports (id : String) (a : Ann) (cur prev : Schema) : Prop :=
+  ∀ (v : Ver) (cat : String), cat ∈ activeCats id v → a ∈ check v cat cur prev
+
+theorem reports_of_run {id : String} {a : Ann} {cur prev : Schema} (h : a ∈ runRule id cur prev) :
+    Reports id a cur prev :=
+  fun _ _ hc => mem_check (active_sound hc) h
+
+/-- the FILE_SAME_<option> ids are not in the main dispatch table -/
+theorem fileOpt_not_in_ruleTable : ∀ p ∈ fileOptRules, (ruleTable.lookup p.1).isNone = true := by decide
 
 end BufProofs.Breaking
